@@ -121,11 +121,23 @@ ApiObs(ev) ==
     \* Bit <-> bool / integer (C11): a.nz = 1 iff the integer is not zero; a.n the bit for bit_to_int
     [] op = "bit_from_int" -> R(b, OBit(a.nz))
     [] op = "bit_to_int"   -> R(b, OBit(a.n))
+    \* ---- behaviour beyond the twenty listed properties ----
+    \* a clone is independent of its source: editing the clone leaves the source alone
+    [] op = "clone_push"   -> R(b, OVec(Append(b, a.bit)))
+    \* write() to a writer that fails after a.n bytes: the error is propagated, nothing panics
+    [] op = "write_fail"   -> R(b, IF a.n < NumBytes(n) THEN OErrIo ELSE OBytes(ToBytes(b, a.e)))
+    \* Display of a Bit is "0" / "1"; Debug of a vector and Display of the error type never panic
+    [] op = "bit_display"  -> R(b, OStr(IF a.bit = 1 THEN <<"1">> ELSE <<"0">>))
+    [] op = "debug_fmt"    -> R(b, OBool(TRUE))
+    [] op = "err_display"  -> R(b, OBool(TRUE))
+    \* Bvd::new(data, length) asserts that the data can hold length bits
+    [] op = "bvd_new"      -> R(b, IF a.n <= 64 * a.i THEN ONum(a.n) ELSE OPanic)
 
 ObsOps == {"len", "is_empty", "get", "first", "last", "to_vec", "write", "is_zero",
            "leading_zeros", "leading_ones", "trailing_zeros", "trailing_ones",
            "significant_bits", "fmt", "to_int", "convert", "new_inner", "iter_collect",
-           "clone", "hs_contains", "bit_from_int", "bit_to_int"} \cup CmpOps
+           "clone", "hs_contains", "bit_from_int", "bit_to_int", "clone_push", "write_fail",
+           "bit_display", "debug_fmt", "err_display", "bvd_new"} \cup CmpOps
 
 (***************************************************************************)
 (* Edits, slicing, shifts by one, rotations, capacity management           *)
